@@ -97,7 +97,7 @@ fn check_cycles(o: &mut CaseOut, cycles: &[Vec<usize>], m: &Model) {
     }
 }
 
-fn check_bfs_pred<D: Order + OutNeighbors + Clone>(d: &D, m: &Model, src: &[usize], r: &mut Rng, o: &mut CaseOut) -> bool {
+fn check_bfs_pred<D: Order + OutNeighbors + Clone>(d: &D, other: &D, m: &Model, src: &[usize], r: &mut Rng, o: &mut CaseOut) -> bool {
     let n = m.n();
     let dist: BTreeMap<usize, i64> = m.levels(src).into_iter().map(|(k, v)| (k, v as i64)).collect();
     let mut unit = m.clone();
@@ -110,6 +110,12 @@ fn check_bfs_pred<D: Order + OutNeighbors + Clone>(d: &D, m: &Model, src: &[usiz
     let items: Vec<(Option<usize>, usize)> = BfsPred::new(d, src.iter().copied()).take(4 * n + 4).collect();
     let items2: Vec<(Option<usize>, usize)> = BfsPred::new(d, src.iter().copied()).clone().take(4 * n + 4).collect();
     o.eq("BfsPred:clone-of-a-fresh-iterator", &items2, &items);
+    {
+        let mut x = BfsPred::new(other, [0usize].into_iter());
+        x.clone_from(&BfsPred::new(d, src.iter().copied()));
+        let items3: Vec<(Option<usize>, usize)> = x.take(4 * n + 4).collect();
+        o.eq("BfsPred:clone_from-of-a-fresh-iterator", &items3, &items);
+    }
     if n <= 24 && src.len() == 1 && m.size() % 6 == 1 {
         crate::obs::iter_consistency(o, "BfsPred", || BfsPred::new(d, src.iter().copied()));
     }
@@ -155,6 +161,13 @@ pub fn case(idx: u64, seed: u64, p: &Params, o: &mut CaseOut) {
         let items: Vec<(Option<usize>, usize)> = DijkstraPred::new(&d, src.iter().copied()).take(4 * n + 4).collect();
         let items2: Vec<(Option<usize>, usize)> = DijkstraPred::new(&d, src.iter().copied()).clone().take(4 * n + 4).collect();
         o.eq("DijkstraPred:clone-of-a-fresh-iterator", &items2, &items);
+        {
+            let other = AdjacencyListWeighted::<usize>::empty(n);
+            let mut x = DijkstraPred::new(&other, [0usize].into_iter());
+            x.clone_from(&DijkstraPred::new(&d, src.iter().copied()));
+            let items3: Vec<(Option<usize>, usize)> = x.take(4 * n + 4).collect();
+            o.eq("DijkstraPred:clone_from-of-a-fresh-iterator", &items3, &items);
+        }
         let vs: Vec<usize> = items.iter().map(|x| x.1).collect();
         let set: BTreeSet<usize> = vs.iter().copied().collect();
         o.check(set.len() == vs.len(), "DijkstraPred:vertex-yielded-twice", || format!("{vs:?}"));
@@ -190,12 +203,14 @@ pub fn case(idx: u64, seed: u64, p: &Params, o: &mut CaseOut) {
     } else {
         let (m, src, fam) = c04::gen_case(&mut r, p.usize("max_order", 20));
         let ty = r.below(5);
+        let on = if r.chance(0.6) { m.n() } else { r.range(1, 12) };
+        let om = crate::gen::family(&mut r, 4, on);
         let nt = match ty {
-            0 => check_bfs_pred(&AdjacencyList::build(&m), &m, &src, &mut r, o),
-            1 => check_bfs_pred(&AdjacencyMap::build(&m), &m, &src, &mut r, o),
-            2 => check_bfs_pred(&AdjacencyMatrix::build(&m), &m, &src, &mut r, o),
-            3 => check_bfs_pred(&EdgeList::build(&m), &m, &src, &mut r, o),
-            _ => check_bfs_pred(&build_w_usize(&m), &m, &src, &mut r, o),
+            0 => check_bfs_pred(&AdjacencyList::build(&m), &AdjacencyList::build(&om), &m, &src, &mut r, o),
+            1 => check_bfs_pred(&AdjacencyMap::build(&m), &AdjacencyMap::build(&om), &m, &src, &mut r, o),
+            2 => check_bfs_pred(&AdjacencyMatrix::build(&m), &AdjacencyMatrix::build(&om), &m, &src, &mut r, o),
+            3 => check_bfs_pred(&EdgeList::build(&m), &EdgeList::build(&om), &m, &src, &mut r, o),
+            _ => check_bfs_pred(&build_w_usize(&m), &build_w_usize(&om), &m, &src, &mut r, o),
         };
         fp.s("bfs").us(ty);
         m.fingerprint(&mut fp);
